@@ -274,6 +274,29 @@ func (s *ShutdownScenario) Run(tmp string, r *rng.R) {
 				}
 			case "close-one":
 				handles[0].Close(ctx)
+			case "close+delete":
+				// the usual teardown, raced: one handle was closed before; now the last open one is closed while the
+				// bucket is deleted through the closed one
+				if len(handles) < 2 {
+					_ = handles[0].CloseAndDelete(ctx)
+					break
+				}
+				handles[0].Close(ctx)
+				var pair sync.WaitGroup
+				pair.Add(2)
+				go func() {
+					defer pair.Done()
+					s.safely("CloseAndDelete(closed handle)", func() { _ = handles[0].CloseAndDelete(ctx) })
+				}()
+				go func() {
+					defer pair.Done()
+					s.safely("Close(last open handle)", func() {
+						for _, h := range handles[1:] {
+							h.Close(ctx)
+						}
+					})
+				}()
+				pair.Wait()
 			case "delete":
 				_ = handles[len(handles)-1].CloseAndDelete(ctx)
 			case "drop":
@@ -310,7 +333,7 @@ func (s *ShutdownScenario) Run(tmp string, r *rng.R) {
 		s.Report("hang|bystander", "a write to an unrelated bucket blocks after the shutdown: "+BlockedSummary())
 		return
 	}
-	storeDown := s.Shutdown == "delete" || (s.Shutdown == "close-all" && s.Disk)
+	storeDown := s.Shutdown == "delete" || s.Shutdown == "close+delete" || (s.Shutdown == "close-all" && s.Disk)
 	if s.Shutdown == "delete" && len(handles) > 1 {
 		// the bucket was deleted through the last handle; handle 0 was never closed and still has its collections
 		// cached: a feed started through it now has lost the race and must be refused (nobody could ever end it)
